@@ -366,8 +366,12 @@ func (d *Descriptor) readAsStruct(out Outputter, data []byte) (n int, err error)
 // case the name is omitted from each entry
 func (d *Descriptor) readAsJSON(out Outputter, data []byte) (n int, err error) {
 	count, n := plenccore.ReadVarUint(data)
-	if n < 0 {
+	if n < 0 || (n == 0 && len(data) != 0) {
 		return 0, fmt.Errorf("corrupt data looking for WTSlice count")
+	}
+	// Every entry takes at least one byte (its length)
+	if count > uint64(len(data)-n) {
+		return 0, fmt.Errorf("count %d exceeds data length %d", count, len(data)-n)
 	}
 	offset := n
 	for i := 0; i < int(count); i++ {
@@ -377,8 +381,8 @@ func (d *Descriptor) readAsJSON(out Outputter, data []byte) (n int, err error) {
 			return 0, fmt.Errorf("invalid varint for slice entry %d", i)
 		}
 		offset += n
-		if s == 0 {
-			continue
+		if s > uint64(len(data)-offset) {
+			return 0, fmt.Errorf("length %d of entry %d exceeds data length %d", s, i, len(data)-offset)
 		}
 
 		n, err := d.readJSONObjectKV(out, data[offset:offset+int(s)])
@@ -399,12 +403,15 @@ func (d *Descriptor) readJSONObjectKV(out Outputter, data []byte) (n int, err er
 
 	for offset < len(data) {
 		wt, index, n := plenccore.ReadTag(data[offset:])
+		if n <= 0 {
+			return 0, fmt.Errorf("bad tag in JSON value")
+		}
 		offset += n
 		switch index {
 		case 1:
 			// When using this for reading arrays we simply don't see this index
 			l, n := plenccore.ReadVarUint(data[offset:])
-			if n < 0 {
+			if n <= 0 || l > uint64(len(data)-offset-n) {
 				return 0, fmt.Errorf("bad length on string field")
 			}
 			offset += n
@@ -418,7 +425,7 @@ func (d *Descriptor) readJSONObjectKV(out Outputter, data []byte) (n int, err er
 			offset += n
 		case 2:
 			v, n := plenccore.ReadVarUint(data[offset:])
-			if n < 0 {
+			if n <= 0 {
 				return 0, fmt.Errorf("invalid map type field")
 			}
 			jType = jsonType(v)
@@ -427,7 +434,7 @@ func (d *Descriptor) readJSONObjectKV(out Outputter, data []byte) (n int, err er
 			switch jType {
 			case jsonTypeString:
 				l, n := plenccore.ReadVarUint(data[offset:])
-				if n < 0 {
+				if n <= 0 || l > uint64(len(data)-offset-n) {
 					return 0, fmt.Errorf("bad length on string field")
 				}
 				offset += n
@@ -484,7 +491,7 @@ func (d *Descriptor) readJSONObjectKV(out Outputter, data []byte) (n int, err er
 
 			case jsonTypeNumber:
 				l, n := plenccore.ReadVarUint(data[offset:])
-				if n < 0 {
+				if n <= 0 || l > uint64(len(data)-offset-n) {
 					return 0, fmt.Errorf("bad length on JSON number field")
 				}
 				offset += n
